@@ -184,6 +184,32 @@ pub struct TableSpec {
     pub name: String,
     pub cols: Vec<ColSpec>,
     pub indexes: Vec<IndexSpec>,
+    /// rows loaded right after CREATE (wide, all keys distinct and outside the pools), so that the table's and
+    /// its indexes' B-trees span several pages and have split their roots before the history starts
+    #[serde(default)]
+    pub prefill: u16,
+}
+
+/// the rows a table is pre-loaded with; empty when the schema has columns whose constraints the fixed values
+/// could violate (CHECK, FOREIGN KEY, AUTO_INCREMENT bookkeeping, keys over BOOLEAN / DOUBLE)
+pub fn prefill_rows(t: &TableSpec) -> Vec<Row> {
+    if t.prefill == 0 || t.cols.iter().any(|c| c.check.is_some() || c.fk.is_some() || c.auto_inc || ((c.pk || c.unique) && matches!(c.ty, Ty::Bool | Ty::Double))) {
+        return vec![];
+    }
+    (0..t.prefill as i64)
+        .map(|i| {
+            t.cols
+                .iter()
+                .enumerate()
+                .map(|(ci, c)| match c.ty {
+                    Ty::Int | Ty::BigInt => Val::Int(100_000 + i * 3 + ci as i64 * 1_000_000),
+                    Ty::Text => Val::Text(format!("p{:05}_{}{}", i, ci, "w".repeat(160))),
+                    Ty::Double => Val::Float(5000.0 + i as f64 * 0.5),
+                    Ty::Bool => Val::Bool(i % 2 == 0),
+                })
+                .collect()
+        })
+        .collect()
 }
 
 #[derive(Debug, Clone, Copy, PartialEq, Eq, Serialize, Deserialize)]
@@ -350,6 +376,11 @@ pub struct Profile {
     pub max_insert_rows: usize,
     pub allow_check: bool,
     pub allow_fk: bool,
+    /// generate whole transactions as units (BEGIN, writes mixed with SAVEPOINT / ROLLBACK TO / RELEASE, then
+    /// ROLLBACK / COMMIT / drop of the handle) between the single operations
+    pub txn_blocks: bool,
+    /// pre-load some tables with 70 / 600 wide rows (multi-page B-trees)
+    pub prefill: bool,
 }
 
 impl Default for Profile {
@@ -379,6 +410,8 @@ impl Default for Profile {
             max_insert_rows: 4,
             allow_check: false,
             allow_fk: false,
+            txn_blocks: false,
+            prefill: false,
         }
     }
 }
@@ -437,7 +470,7 @@ pub fn table_strategy(p: &Profile, name: String) -> BoxedStrategy<TableSpec> {
                     indexes.push(IndexSpec { name: format!("ix_{}_{}", name, k), cols, unique: uq && p.allow_unique && false });
                 }
             }
-            TableSpec { name: name.clone(), cols: out, indexes }
+            TableSpec { name: name.clone(), cols: out, indexes, prefill: 0 }
         })
         .boxed()
 }
@@ -528,10 +561,43 @@ pub struct History {
 
 pub fn history_strategy(p: &Profile) -> BoxedStrategy<History> {
     let p2 = p.clone();
+    let fill = if p.prefill { prop_oneof![3 => Just(0u16), 3 => Just(70u16), 1 => Just(600u16)].boxed() } else { Just(0u16).boxed() };
     let tables = (1..=p.max_tables).prop_flat_map(move |n| {
-        let v: Vec<BoxedStrategy<TableSpec>> = (0..n).map(|i| table_strategy(&p2, format!("t{}", i))).collect();
+        let v: Vec<BoxedStrategy<TableSpec>> = (0..n)
+            .map(|i| {
+                (table_strategy(&p2, format!("t{}", i)), fill.clone())
+                    .prop_map(|(mut t, f)| {
+                        t.prefill = f;
+                        t
+                    })
+                    .boxed()
+            })
+            .collect();
         v
     });
+    if p.txn_blocks {
+        let mut pd = p.clone();
+        pd.txn = 0;
+        pd.ddl = 0;
+        pd.lifecycle = 0;
+        pd.truncate = 0;
+        let inner = prop_oneof![
+            5 => op_strategy(&pd),
+            2 => (0u8..2).prop_map(Op::Savepoint),
+            2 => (0u8..2).prop_map(Op::RollbackTo),
+            1 => (0u8..2).prop_map(Op::Release),
+        ];
+        let block = (proptest::collection::vec(inner, 2..10), prop_oneof![3 => Just(Op::Rollback), 1 => Just(Op::Commit), 1 => Just(Op::DropReopen)]).prop_map(|(mut v, end)| {
+            v.insert(0, Op::Begin);
+            v.push(end);
+            v
+        });
+        let seg = prop_oneof![3 => op_strategy(p).prop_map(|o| vec![o]), 2 => block];
+        let n = (p.max_ops / 4).max(2);
+        return (tables, proptest::collection::vec(seg, 1..=n))
+            .prop_map(|(tables, segs)| History { tables, ops: segs.into_iter().flatten().collect() })
+            .boxed();
+    }
     (tables, proptest::collection::vec(op_strategy(p), 1..=p.max_ops)).prop_map(|(tables, ops)| History { tables, ops }).boxed()
 }
 
